@@ -363,6 +363,7 @@ func execDraw(line string) (res h.Result) {
 		sh.cells, sh.w, sh.h = nc, sh.ttyw, sh.ttyh
 		sh.locked = map[[2]int]bool{}
 	}
+	markAllChanged() // nothing has been painted yet
 	lastDraw := false
 	tags := map[string]bool{}
 	afterDraw := func(full bool) {
